@@ -32,6 +32,13 @@ def shr (a b : Nat) : Nat := a >>> b
 /-- `Instant::checked_add`: `lim` is the largest representable `Instant` (ns offset). -/
 def instantCheckedAdd (lim t d : Nat) : Option Nat := if t + d ≤ lim then some (t + d) else none
 
+/-- `a[lo..hi]` -/
+def slice {α : Type} (a : List α) (lo hi : Nat) : List α := (a.drop lo).take (hi - lo)
+
+/-- `a[lo..lo + src.len()].copy_from_slice(src)` -/
+def copyInto {α : Type} (a : List α) (lo : Nat) (src : List α) : List α :=
+  a.take lo ++ src ++ a.drop (lo + src.length)
+
 /-- One iteration of a compare-exchange retry loop
 `let mut cur = A.load(); loop { …; match A.compare_exchange(cur, new) { Ok(_) => return v, Err(o) => cur = o } }`
 as a function of the value `cur` observed: `done v` = `return v` before the exchange;
